@@ -80,7 +80,13 @@ try:
     meta["suite_extra_failures"] = extra
     meta["confirmed"] = build_ok and rc0 == 0 and rc1 != 0 and not extra
     # the check
-    e2 = dict(os.environ, VERIF_REPO=wt, VERIF_TAG=tag, VERIF_REPLAY_DIR=f"/verif/.build/tmp/replays{tag}")
+    # the check is built from a snapshot of the harness sources taken now
+    snap = f"/verif/.build/snap{tag}"
+    shutil.rmtree(snap, ignore_errors=True)
+    os.makedirs(snap)
+    for d in ("engine", "hooks", "hooks-lab"):
+        shutil.copytree(f"/verif/{d}", f"{snap}/{d}")
+    e2 = dict(os.environ, VERIF_REPO=wt, VERIF_TAG=tag, VERIF_SRC=snap, VERIF_REPLAY_DIR=f"/verif/.build/tmp/replays{tag}")
     t0 = time.time()
     rc, out = sh(f"/verif/vcheck {prop} {tier}", cwd="/verif", e=e2, timeout=7200)
     keys = re.findall(r"^\s+key=(\S+)", out, re.M)
@@ -109,6 +115,7 @@ finally:
     subprocess.run(f"git -C /repo worktree remove --force {wt}", shell=True, capture_output=True)
     for f in glob.glob(f"/verif/.build/bin/*{tag}.test") + glob.glob(f"/verif/.build/overlay-*{tag}.json") + glob.glob(f"/verif/.build/go{tag}.*"):
         os.remove(f)
+    shutil.rmtree(f"/verif/.build/snap{tag}", ignore_errors=True)
     shutil.rmtree(f"/verif/.build/gen/lab{tag}", ignore_errors=True)
     shutil.rmtree(f"/verif/.build/gen/thread{tag}", ignore_errors=True)
     shutil.rmtree(f"/verif/.build/gen/plain{tag}", ignore_errors=True)
